@@ -208,19 +208,37 @@ def lazily_forgotten(P, m, reuse):
     # clearing walks: `cli->m &= ...` inside a loop, under a test that mentions a member of the service record and a
     # member of the client record (the two stamps)
     walks = []
+
+    def members(f, side, depth=0):
+        """(record, field) of the members a guard side mentions, looking through locals that hold a copy of one"""
+        out = []
+        for x in walk(side):
+            if x.get('k') == 'mem':
+                out.append((x.get('rec'), x.get('field')))
+            elif x.get('k') == 'var' and x.get('sc') == 'local' and depth < 2:
+                sd = f.single_def(x['name'])
+                if sd and isinstance(sd[1], dict) and sd[1].get('k') == 'mem':
+                    out.append((sd[1].get('rec'), sd[1].get('field')))
+        return out
     for f in P.unit_fns(UNIT):
         for s in f.stores():
             ev = s.ev
             if not (ev['k'] == 'store' and ev.get('op') == '&=' and ev['lhs'].get('k') == 'mem' and ev['lhs'].get('field') == m and ev['lhs'].get('rec') == REC):
                 continue
-            if s.bid not in f.reach([e.dst for e in f.out[s.bid]]):
-                continue
-            for g in f.guards(s.bid):
-                fs = [(x.get('rec'), x.get('field')) for side in (g[0], g[2]) if isinstance(side, dict) for x in walk(side) if x.get('k') == 'mem']
-                es = [fl for r_, fl in fs if r_ == 'iauth_xquery_service']
-                ec = [fl for r_, fl in fs if r_ == REC]
-                if es and ec and es[0] not in ('refs', 'configured', 'type'):
-                    walks.append((f, s, es[0], ec[0]))
+            # the walk: this store itself inside the loop, or - the stale slots being collected into a local first and the
+            # mask cleared once - the store that adds a slot's bit to that local
+            sites = [s] if s.bid in f.reach([e.dst for e in f.out[s.bid]]) else []
+            if not sites:
+                accs = {x['name'] for x in walk(ev.get('rhs') or {}) if x.get('k') == 'var' and x.get('sc') == 'local'}
+                sites = [t for t in f.stores() if t.ev['k'] == 'store' and t.ev.get('op') == '|=' and is_var(t.ev.get('lhs')) and t.ev['lhs']['name'] in accs
+                         and any(isinstance(x, dict) and x.get('k') == 'bin' and x.get('op') == '<<' for x in walk(t.ev.get('rhs') or {})) and t.bid in f.reach([e.dst for e in f.out[t.bid]])]
+            for w in sites:
+                for g in f.guards(w.bid):
+                    fs = [mf for side in (g[0], g[2]) if isinstance(side, dict) for mf in members(f, side)]
+                    es = [fl for r_, fl in fs if r_ == 'iauth_xquery_service']
+                    ec = [fl for r_, fl in fs if r_ == REC]
+                    if es and ec and es[0] not in ('refs', 'configured', 'type'):
+                        walks.append((f, w, es[0], ec[0]))
     if not walks:
         return None
     f0, s0, e_s, e_c = walks[0]
@@ -271,7 +289,14 @@ def lazily_forgotten(P, m, reuse):
         for bid in f.blocks:
             for e in f.out[bid]:
                 r_ = rules.edge_rel(e)
-                if r_ and r_[1] == '==' and ((is_field(r_[0], e_c) and is_var(r_[2], G)) or (is_var(r_[0], G) and is_field(r_[2], e_c))):
+                def is_stamp(x, f=f):
+                    if is_field(x, e_c):
+                        return True
+                    if is_var(x) and x.get('sc') == 'local':
+                        sd = f.single_def(x['name'])
+                        return bool(sd) and is_field(sd[1], e_c)
+                    return False
+                if r_ and r_[1] == '==' and ((is_stamp(r_[0]) and is_var(r_[2], G)) or (is_var(r_[0], G) and is_stamp(r_[2]))):
                     cut.append(e)
         # the clearing walk itself reads nothing but the stamps; its own `&=` are not looks
         walk_blocks = {w[1].bid for w in walks if w[0] is f}
